@@ -227,7 +227,7 @@ pub fn op_strategy(w: &Weights) -> BoxedStrategy<Op> {
         ];
         v.push((w.side, so.prop_map(Op::Side).boxed()));
     }
-    v.push((w.vanish, any::<u16>().prop_map(|m| Op::SnapshotsVanish { m }).boxed()));
+    v.push((w.vanish, (any::<u16>(), any::<bool>()).prop_map(|(m, only_oldest)| Op::SnapshotsVanish { m, only_oldest }).boxed()));
     v.push((w.burst, (any::<u16>(), 3u8..14).prop_map(|(m, n)| Op::Burst { m, n }).boxed()));
     v.push((w.solo_group, (any::<u16>(), any::<bool>()).prop_map(|(m, collide)| Op::SoloGroup { m, collide }).boxed()));
     let v: Vec<(u32, BoxedStrategy<Op>)> = v.into_iter().filter(|(w, _)| *w > 0).collect();
